@@ -792,6 +792,11 @@ def check_ins_results(fs, model, errs, tol=1e-9):
             if (any(met) if ns._stop_any else all(met)) and (j + 1) >= ns.min_iteration:
                 err("ins:ran-on-after-the-recorded-criteria-met-the-tolerances", f"after iteration {j + 1} the recorded {ns.stopping_criterion} = {[c[j] for c in crit]} met {ns.tolerance} ({'any' if ns._stop_any else 'all'}), but {n_it} iterations were performed")
                 break
+        # ... and not earlier: a run that ended below its iteration cap must end on criteria that are met
+        if n_it and n_it == ns.iteration and ns.iteration < ns.max_iteration:
+            met = [c[n_it - 1] <= t for c, t in zip(crit, ns.tolerance)]
+            if not (any(met) if ns._stop_any else all(met)):
+                err("ins:stopped-below-the-cap-although-the-recorded-criteria-do-not-meet-the-tolerances", f"stopped after iteration {n_it} (cap {ns.max_iteration}, minimum {ns.min_iteration}) with {ns.stopping_criterion} = {[c[n_it - 1] for c in crit]} vs {ns.tolerance} ({'any' if ns._stop_any else 'all'})")
     except Exception as e:  # pragma: no cover
         err("ins:stopping-history-unreadable", repr(e))
     n_expected = ns.n_initial + int(np.sum(hist["n_added"]))
